@@ -391,6 +391,26 @@ def run_large(rec, tier, seed):
         rec.case(3, 3)
         if st != "ok" or not numpy.array_equal(y.numpy(), ref):
             rec.violation("kmers:wrong_counts:large", dict(fn="kmers", A=A_, k=k, L=L), observed=y if st != "ok" else None)
+    # scored k-mers with a huge dynamic range: windows that do not contain the two giant scores are summed exactly
+    for (A_, k, L) in ((4, 3, 60), (4, 2, 40)):
+        codes = rs.randint(0, A_, (1, L))
+        sc = numpy.ones(L)
+        sc[5], sc[30] = 1e20, -1e20
+        words = all_codes(A_, k)
+        pi = kmers(ohe(words, A_), k).argmax(1).numpy()
+        wid = {tuple(w): int(pi[i]) for i, w in enumerate(words.tolist())}
+        clean, dirty = {}, set()
+        for i in range(L - k + 1):
+            j = wid[tuple(codes[0, i:i + k].tolist())]
+            if i <= 5 < i + k or i <= 30 < i + k:
+                dirty.add(j)
+            else:
+                clean[j] = clean.get(j, 0.0) + float(sc[i:i + k].sum())
+        st, y = call(kmers, ohe(codes, A_), k, scores=torch.from_numpy(sc)[None])
+        rec.case(1, 1)
+        bad = st != "ok" or any(j not in dirty and abs(float(y[0, j]) - v) > 1e-4 for j, v in clean.items())
+        if bad:
+            rec.violation("kmers:wrong_scores:dynamic_range", dict(fn="kmers", A=A_, k=k, L=L, scores="ones with 1e20 at 5 and -1e20 at 30"), observed=y if st != "ok" else None)
     # k-mer spaces beyond 2^24 columns (indexes no longer exact in single precision): the j-th k-mer is the one whose characters,
     # first character least significant, spell j in base len(alphabet) - the order the small-k enumeration establishes
     for (A_, k, L) in ((4, 12, 70), (4, 13, 70), (5, 11, 50)):
